@@ -43,6 +43,7 @@ enum Api
     RFFT_PAD1 = 15,
     RFFT_PAD5 = 16,
     FFT_PAD5 = 4,
+    CZT_A = 5,
     XCORR = 20,
     HILBERT = 21,
     FFTFILT = 22,
@@ -66,6 +67,7 @@ static const char* api_name(int a) {
     case RFFT_PAD1: return "rfft_pad1";
     case RFFT_PAD5: return "rfft_pad5";
     case FFT_PAD5: return "fft_pad5";
+    case CZT_A: return "czt_a";
     case CZT: return "czt";
     }
     return "?";
@@ -147,6 +149,9 @@ static std::vector<double> do_request(int api, int n) {
     case HILBERT: return flat(hilbert(rinput(n)));
     case FFTFILT: { FftFilter f(rinput(std::max(2, n / 4))); return flat(f.process(rinput(4 * n))); }
     case CZT: return flat(czt(cinput(n), n, expj(-2 * pi / n)));
+    // the same contour spacing as the DFT of length n, but a start point off the unit circle: shares n, m and w with the
+    // chirp-z plan inside a prime-length FFT, and nothing else
+    case CZT_A: return flat(czt(cinput(n), n, expj(-2 * pi / n), cmplx_t(0.9 * std::cos(0.3), 0.9 * std::sin(0.3))));
     }
     return {};
 }
@@ -275,7 +280,10 @@ int main(int argc, char** argv) {
                     for (int i = 0; i < len; ++i, c /= A) {
                         const int n = alpha[c % A];
                         int api;
-                        if (family[0] == 'C') {
+                        if (family == "C2") {
+                            const int v = (int)((seqno + i) % 4);
+                            api = v == 0 ? CZT_A : v == 1 ? FFT_C : v == 2 ? CZT : PLAN_C;
+                        } else if (family[0] == 'C') {
                             const int v = (int)((seqno + i) % 5);
                             api = v == 0 ? FFT_C : v == 1 ? IFFT : v == 2 ? PLAN_C : v == 3 ? FFT_PAD : FFT_PAD5;
                         } else if (family == "R") {
@@ -297,7 +305,7 @@ int main(int argc, char** argv) {
                       47, 48, 49, 53, 60, 63, 64, 86, 94, 100, 106, 127, 128, 129, 210}) {
             lens.push_back(n);
         }
-        const std::vector<int> apis = {FFT_C, IFFT, PLAN_C, FFT_PAD, FFT_PAD5, RFFT, RFFT_PAD1, RFFT_PAD5, IRFFT, PLAN_R, IRFFT_HALF, IRFFT_ODD, XCORR, HILBERT,
+        const std::vector<int> apis = {FFT_C, IFFT, PLAN_C, FFT_PAD, FFT_PAD5, CZT_A, RFFT, RFFT_PAD1, RFFT_PAD5, IRFFT, PLAN_R, IRFFT_HALF, IRFFT_ODD, XCORR, HILBERT,
                                        FFTFILT, CZT};
         long done = 0;
         while (done < budget) {
